@@ -240,6 +240,13 @@ def rule_auto_flush(ctx, f, rid):
                 okc = okc and len(eff) == (2 if flushes else 1)
         ctx.ob(rid, "%s::%s|delegates" % (ty, m), ok and okc, "%s::%s must run exactly %s on the located local%s inside with()" % (ty, m, callee, " followed by may_flush" if flushes else ""), site=b.raw["span"]["at"])
     ctx.floor(rid, "auto-flush wrapper methods", n, 9)
+    gc = ctx.anchor(rid, "AFLocalCounter::get_counter", f.body(A + "AFLocalCounter::get_counter"))
+    if gc:
+        ctx.saw(gc)
+        r = peel(gc.term_local(0), transparent=[])
+        ok = is_call(r, ["CounterDelegator::get_local", "get_local"]) and peel(r[2][0]) == SELF_FIELD("delegator") and peel(r[2][1]) == P(2) and not effect_calls(gc, PURE + ["CounterDelegator::get_local", "get_local"])
+        ctx.ob(rid, "AFLocalCounter::get_counter|locates-via-delegator", ok and len(gc.calls()) == 1,
+               "get_counter must locate the local counter from the root metric it is given, on every call (the root is per thread: nothing may be cached in the shared accessor)", site=gc.raw["span"]["at"])
     b = ctx.anchor(rid, "AFLocalCounter::flush", f.body(A + "AFLocalCounter::flush"))
     if b:
         ctx.saw(b)
